@@ -15,6 +15,7 @@ def run(ctx):
     _K.accumulator_reset(ctx, rule="R17.6")  # mode-summation kernels: phase reset per mode, every point and mode visited (shared with C15)
     _K.accumulator_complete(ctx, rule="R17.6")
     _K.build_independent(ctx, rule="R17.6")
+    _K.kernel_shape(ctx, rule="R17.6")
     _K.full_extent(ctx, rule="R17.6")
     _K.zero_init(ctx, rule="R17.6")
     from . import C15_bounds
@@ -28,6 +29,9 @@ def run(ctx):
     from .C11 import private_copy
 
     private_copy(ctx, rule="R17.4")  # without a private model copy an in-place anisotropy change is invisible to update(): the mode mesh goes stale
+    from .C11 import change_detection
+
+    change_detection(ctx, rule="R17.8")  # the mode mesh is rebuilt only if the model comparison notices the change (shared with C11)
     from .C14 import no_shared_fields
 
     # the stored period is the generator's own copy: the caller's array may change afterwards, the next rebuild of the mode mesh would follow it
